@@ -92,13 +92,17 @@ package jschema
 //@   loop#1 invariant -1 <= rangeindex && rangeindex < len(children) && buf != nil && pool_buffer(buf) && pool_held(buf) && b != nil
 //@   loop#1 decreases len(children) - rangeindex
 
+// (C06, termination of Example(): a type is expanded only while fewer than two expansions of it are open, and the
+// expansion about to start is counted under the very name that the guard looked at)
 //@ func (*exampleBuilder).buildExampleForMixedValueNode
-//@   property C10
+//@   property C10 C06
 //@   requires b != nil
 //@   may_panic
 //@   modifies pool_state(), mapof(b.processedTypes)
 //@   ensures result1 == nil ==> notPooled(result0)
 //@   at call:Data.after assume notPooled(ret0)
+//@   at call:GetTypes.after bind tt = ret0
+//@   at call:Build assert len(tt) >= 1 && old(b.processedTypes[tt[0]]) <= 1 && b.processedTypes[tt[0]] == old(b.processedTypes[tt[0]]) + 1
 
 //@ func buildExample
 //@   property C10
